@@ -209,7 +209,17 @@ def check_fil(case, ctx, d=None, name="out.fil", step=0):
 def strat_block_case(draw):
     return {"nchans": draw(st.integers(1, 8)), "nsamps": draw(st.integers(1, 24)),
             "seed": draw(st.integers(0, 2**31 - 1)), "meta": draw(meta),
-            "float_kind": draw(st.sampled_from(["int", "any"])), "in_nbits": draw(st.sampled_from([8, 32]))}
+            "float_kind": draw(st.sampled_from(["int", "any"])), "in_nbits": draw(st.sampled_from([8, 32])),
+            "stem": draw(st.integers(0, 4))}
+
+
+# output names: plain, PRESTO-style with a dot in the last component, several dots, a blank
+STEMS = ["o", "cand_DM12.50", "J0437-4715_2020.01.02", "with space", "x.tar"]
+
+
+def sibling(stem):
+    """Another legitimate output name that differs from ``stem`` only after its last dot (or by a suffix)."""
+    return stem.rsplit(".", 1)[0] + ".75" if "." in stem else stem + "_2"
 
 
 def f32_values(seed, shape, kind):
@@ -227,7 +237,7 @@ def check_block(case, ctx):
     from sigpyproc.readers import FilReader
 
     d = ctx.fresh_dir()
-    path = os.path.join(d, "blk.fil")
+    path = os.path.join(d, STEMS[case.get("stem", 0)] + ".fil")
     nchans, N = case["nchans"], case["nsamps"]
     data = f32_values(case["seed"], (nchans, N), case["float_kind"])
     m = case["meta"]
@@ -256,7 +266,7 @@ def check_block(case, ctx):
 def strat_ts_case(draw):
     return {"n": draw(st.integers(1, 64)), "seed": draw(st.integers(0, 2**31 - 1)), "meta": draw(meta),
             "float_kind": draw(st.sampled_from(["int", "any"])), "fmt": draw(st.sampled_from(["tim", "dat"])),
-            "nchunks": 1}
+            "nchunks": 1, "stem": draw(st.integers(0, len(STEMS) - 1))}
 
 
 def check_ts(case, ctx):
@@ -269,7 +279,7 @@ def check_ts(case, ctx):
     hdr = mk_header(os.path.join(d, "src.tim"), 32, 1, n, data_type="time series", **m)
     ts = TimeSeries(data, hdr)
     if case["fmt"] == "tim":
-        path = os.path.join(d, "o.tim")
+        path = os.path.join(d, STEMS[case.get("stem", 0)] + ".tim")
         try:
             ts.to_tim(path)
             back = TimeSeries.from_tim(path)
@@ -280,10 +290,18 @@ def check_ts(case, ctx):
                 f"{pf['size'] - pf['hdrlen']} data bytes for {n} samples, nbits={pf['hdr'].get('nbits')}")
         presto = False
     else:
-        base = os.path.join(d, "o")
+        stem = STEMS[case.get("stem", 0)]
+        base = os.path.join(d, stem)
         try:
             ret = ts.to_dat(base)
+            # a second product under a different basename must not disturb the first
+            other = TimeSeries(f32_values(case["seed"] + 1, (n + 3,), "int"),
+                               mk_header(os.path.join(d, "src2.tim"), 32, 1, n + 3, data_type="time series"))
+            ret2 = other.to_dat(os.path.join(d, sibling(stem)))
+            require(ret2 != ret, "dat:two-basenames-one-file", f"basenames {stem!r} and {sibling(stem)!r} are both written to {os.path.basename(ret)!r}")
             back = TimeSeries.from_dat(ret)
+        except Violation:
+            raise
         except Exception as exc:  # noqa: BLE001
             raise Violation("dat:raised", f"{exc!r}") from exc
         require(os.path.exists(base + ".inf"), "dat:no-inf")
@@ -301,7 +319,8 @@ def check_ts(case, ctx):
 @st.composite
 def strat_fs_case(draw):
     return {"nbins": draw(st.integers(1, 40)), "seed": draw(st.integers(0, 2**31 - 1)), "meta": draw(meta),
-            "float_kind": draw(st.sampled_from(["int", "any"])), "fmt": draw(st.sampled_from(["spec", "fft"]))}
+            "float_kind": draw(st.sampled_from(["int", "any"])), "fmt": draw(st.sampled_from(["spec", "fft"])),
+            "stem": draw(st.integers(0, len(STEMS) - 1))}
 
 
 def check_fs(case, ctx):
@@ -316,7 +335,7 @@ def check_fs(case, ctx):
     hdr = mk_header(os.path.join(d, "src.spec"), 32, 1, max(L, 1), data_type="complex spectrum" if False else "time series", **m)
     fs = FourierSeries(data, hdr)
     if case["fmt"] == "spec":
-        path = os.path.join(d, "o.spec")
+        path = os.path.join(d, STEMS[case.get("stem", 0)] + ".spec")
         try:
             fs.to_spec(path)
             back = FourierSeries.from_spec(path)
@@ -327,10 +346,17 @@ def check_fs(case, ctx):
         require(back.header.nsamples == 2 * nb, "spec:nsamples", f"inferred {back.header.nsamples}, wrote {2 * nb} float samples")
         presto = False
     else:
-        base = os.path.join(d, "o")
+        stem = STEMS[case.get("stem", 0)]
+        base = os.path.join(d, stem)
         try:
             ret = fs.to_fft(base)
+            other = FourierSeries(f32_values(case["seed"] + 1, (2 * nb + 4,), "int").view(np.complex64),
+                                  mk_header(os.path.join(d, "src2.spec"), 32, 1, 2 * nb + 2, data_type="time series"))
+            ret2 = other.to_fft(os.path.join(d, sibling(stem)))
+            require(ret2 != ret, "fft:two-basenames-one-file", f"basenames {stem!r} and {sibling(stem)!r} are both written to {os.path.basename(ret)!r}")
             back = FourierSeries.from_fft(ret)
+        except Violation:
+            raise
         except Exception as exc:  # noqa: BLE001
             raise Violation("fft:raised", f"{exc!r}") from exc
         require(os.path.getsize(ret) == 8 * nb, "fft:size", f"{os.path.getsize(ret)} != {8 * nb}")
